@@ -114,8 +114,8 @@ func runHandleDirect(t *testing.T, sc *SeqScn, trace bool, owners []string) *Out
 					switch op.Op {
 					case "alloc":
 						p := paths[op.Path%len(paths)]
+						sh.allocs.Add(1) // counted when it STARTS: from then on it may have evicted somebody's handle
 						h := fm.Allocate(absnfs.VerifNewNode(view, p, 0o644))
-						sh.allocs.Add(1)
 						mine = append(mine, own{h, p})
 						// right after issue the value denotes the path it was issued for, unless someone released it meanwhile or the table may have overflowed (eviction frees the value for reuse: the C06 known finding)
 						hs, _, _ := absnfs.VerifHandleSnapshot(fm)
